@@ -1,7 +1,7 @@
 (* Extract.v — extraction of the executable model to OCaml.
    Only ExtrOcamlBasic is used: bool/option/unit/list/prod/sumbool/sumor map to OCaml types,
    andb/orb are inlined; N, Z, positive, nat, string and ascii stay Coq inductives. *)
-From PyUbx Require Import Base Bytes Fletcher Frame Reader Socket PyFloat Types Strs Walk Consts Tables Msg.
+From PyUbx Require Import Base Bytes Fletcher Frame Reader Socket PyFloat Types Strs Walk Consts Tables Msg Helpers WfDef.
 Require Import ExtrOcamlBasic.
 Extraction "model.ml"
   fletcher fletcher_spec isvalid_checksum parse_front wellformedb mk_frame
@@ -10,4 +10,5 @@ Extraction "model.ml"
   parse construct serialize msg_length msg_identity repr_construct setattr_ delattr_ getinputmode
   msgstr2bytes msgclass2bytes config_set config_del config_poll cfgname2key cfgkey2name_
   v2b bytes2val nomval identity bits_of_b64 b64_of_bits nmea_hdr2
+  table_failures entry_rules all_entries nominal_ok mode_entry_ok get_bits att2idx att2name val2sphp
   py_round_nd py_int_of_float py_round_int int_truediv fdiv fmul fadd f_of_Z.
